@@ -8,6 +8,7 @@ EXPLANATION = (
     "D3 kind filters: depends/build_depends/conflicts/pkgdirs/pkgrmdirs keep every entry of their kind (filter_map+collect), pkgname/display the first (find_map), is_preserve true iff a PkgOpt(Preserve) entry exists")
 NOT_DECIDED = ["order preservation and completeness of Iterator::filter / filter_map / find_map / collect, and OsString::push (std semantics)"]
 CONFIG_SENSITIVE = False
+DESUGAR = True
 
 PE = "plist::PlistEntry"
 
